@@ -1,4 +1,5 @@
 import StrumProofs.Lemmas.NamesGen
+import StrumProofs.Source
 /-
 C03 — all string-producing derives agree on one canonical name per variant.
 -/
@@ -117,5 +118,15 @@ example : NoPlaceholder [82, 101, 100] := by unfold NoPlaceholder; rfl
 example : canonical { pfx := some [112], style := some .snake }
     { ident := [82, 101, 100], serialize := [[97], [98, 98, 98], [99, 99]] } = [112, 98, 98, 98] := by decide
 example : longestSerialize { ident := [], serialize := [[97, 97], [98, 98]] } = some [98, 98] := by decide
+
+/-- **at source level**: the canonical name of a written variant is the enum's prefix (the LAST `prefix` item of the header,
+    if any) followed by the variant's own `to_string` literal, else the longest of its own `serialize` literals, else its
+    identifier in the header's style - nothing written on another variant enters -/
+theorem source_canonical (s : RawSource) (r : RawVariant) :
+    canonical s.declared r.declared =
+      ((lastOf EItem.pfx? s.hdr.attrs.flatten).getD []) ++
+        ((lastOf VItem.toStr? r.attrs.flatten).getD
+          ((maxByKeyLast List.length (serializesOf r.attrs.flatten)).getD
+            (convertCase ((lastOf EItem.style? s.hdr.attrs.flatten).bind parseStyle) r.ident))) := rfl
 
 end Strum
